@@ -52,6 +52,15 @@ def cases(tier, seed):
         if cfg["env"] in ("flp", "mcp") and cfg["k"] > 1:
             for r in range(reps):
                 out.append(dict(kind="other", cfg=cfg, family="mixed_quota", B=16, s=rnd.randrange(10**6)))
+        if cfg["env"] in ("fjsp", "jssp") and cfg.get("pmax", 9) <= 99 and cfg["jobs"] <= 6:
+            for r in range(reps):
+                out.append(dict(kind="other", cfg=cfg, family="sentinel", B=16, s=rnd.randrange(10**6)))
+    # every fourth env-level case runs on an instance object that earlier episodes already used (1, 4 or 9 of them): nothing may
+    # accumulate in it that leaves a later episode without an action
+    for i, c_ in enumerate(out):
+        if i % 4 == 3 and c_.get("family", "gen") in ("gen", "mixed_quota"):
+            c_["reuse"] = True
+            c_["reuse_n"] = [1, 4, 9][(i // 4) % 3]
     for env in ("tsp", "cvrp", "cvrptw", "sdvrp", "svrp", "op", "pctsp", "spctsp", "pdp", "mtsp", "mtvrp"):
         for n in ((6, 10) if tier == "quick" else (5, 6, 10, 20)):
             for dec in ("greedy", "sampling", "multistart_sampling"):
